@@ -90,10 +90,17 @@ func (World) Generate(rng *rand.Rand, tier string, runIdx uint64) simkit.Plan {
 	n := 15 + rng.IntN(60)
 	nclients := 2 + rng.IntN(4)
 	nwatch := 1 + rng.IntN(3)
+	bursts := 0
 	pick := func(xs []string) string { return xs[rng.IntN(len(xs))] }
 	for len(p.Steps) < n {
 		c := rng.IntN(nclients)
-		switch simkit.Weighted(rng, []int{26, 10, 16, 4, 3, 8, 14, 2, 12, 2, 3, 9}) {
+		switch simkit.Weighted(rng, []int{26, 10, 16, 4, 3, 8, 14, 2, 12, 2, 3, 9, 2}) {
+		case 12:
+			// more writes than the publisher's queue holds, while nothing is published: the writer has to wait for room
+			if bursts < 2 {
+				bursts++
+				p.Steps = append(p.Steps, Step{Op: "burst", N: 66 + rng.IntN(40)})
+			}
 		case 11:
 			st := Step{Op: "par"}
 			shared := pick(names)
@@ -215,6 +222,7 @@ func (wd World) Execute(t *testing.T, pl simkit.Plan, r *simkit.Run) (v *simkit.
 }
 
 func (World) execute(p *Plan, r *simkit.Run) *simkit.Violation {
+	inmem.VerifYield = nil
 	h := &handle{next: 10, r: r}
 	// the Handle interface has an unexported-free method set; DialLeader is only used when forwarding
 	b, err := raftstorage.NewBackend(handleAdapter{h}, hclog.NewNullLogger())
@@ -454,6 +462,68 @@ func (World) execute(p *Plan, r *simkit.Run) *simkit.Violation {
 			if v := runPar(s, store, h, model, &uidN, r, mk); v != nil {
 				return v
 			}
+		case "burst":
+			// a writer that outruns the publisher: it runs as a task and blocks when the queue is full; the
+			// scheduler publishes one batch whenever the writer cannot go on
+			type bw struct {
+				k    string
+				m    *mres
+				fail string
+			}
+			start := map[string]*mres{}
+			for _, n := range names {
+				if m := model[key(n, "default")]; m != nil {
+					cp := *m
+					start[n] = &cp
+				}
+			}
+			base := uidN
+			uidN += len(names)
+			done := make(chan []bw, 1)
+			go func() {
+				var out []bw
+				cur := start
+				for j := 0; j < s.N; j++ {
+					n := names[j%len(names)]
+					uid, vsn := fmt.Sprintf("uid-%d", base+1+j%len(names)), ""
+					if m := cur[n]; m != nil {
+						uid, vsn = m.uid, m.version
+					}
+					data := fmt.Sprintf("b%d", j)
+					got, err := b.WriteCAS(ctx, &pbresource.Resource{Id: rid(n, "default", uid), Version: vsn, Data: mustAny(data)})
+					if err != nil {
+						out = append(out, bw{fail: fmt.Sprintf("write %d of the burst (%s, presenting %q): %v", j, n, vsn, err)})
+						break
+					}
+					cur[n] = &mres{uid: uid, version: got.Version, data: data}
+					out = append(out, bw{k: key(n, "default"), m: cur[n]})
+				}
+				done <- out
+			}()
+			var res []bw
+			for res == nil {
+				synctest.Wait()
+				select {
+				case res = <-done:
+				default:
+					if !store.VerifDrainOne() {
+						return mk("not-linearizable", "burst-writer-makes-progress", "the writer of a burst is blocked although nothing waits to be published")
+					}
+					r.Hit("probe.writer-waited-for-the-publisher")
+				}
+			}
+			for _, x := range res {
+				if x.fail != "" {
+					return mk("not-linearizable", "write-cas-verdict-equals-model", x.fail)
+				}
+				model[x.k] = x.m
+			}
+			r.Hit("probe.bursts")
+			r.Sig("burst")
+			// room for the steps that write from the scheduler's own goroutine
+			for store.VerifPending() > 40 {
+				store.VerifDrainOne()
+			}
 		case "list":
 			ten := tenancy(s.NS)
 			if s.NS == "*" {
@@ -660,7 +730,8 @@ func (World) execute(p *Plan, r *simkit.Run) *simkit.Violation {
 	}
 	// quiescence: publish and consume everything; each live watch's view equals the matching part of the model
 	cur, curStep = len(p.Steps), Step{Op: "quiesce"}
-	for round := 0; round < 500; round++ {
+	quiet := false
+	for round := 0; round < 20000; round++ {
 		progressed := store.VerifDrainOne()
 		for _, w := range watchers {
 			if w.w != nil && w.pending == nil {
@@ -680,8 +751,12 @@ func (World) execute(p *Plan, r *simkit.Run) *simkit.Violation {
 			progressed = true
 		}
 		if !progressed && store.VerifPending() == 0 {
+			quiet = true
 			break
 		}
+	}
+	if !quiet {
+		panic("quiescence not reached within the round limit: the comparison below would judge a backlog, not the store")
 	}
 	ids := make([]int, 0, len(watchers))
 	for id := range watchers {
